@@ -26,8 +26,24 @@ const LD8: u64 = CODE_AT + 8; // 8a 07        mov al, [rdi]
 const ST64: u64 = CODE_AT + 12; // 48 89 07   mov [rdi], rax
 const LD64: u64 = CODE_AT + 16; // 48 8b 07   mov rax, [rdi]
 
+/// further load forms (offset in the palette, bytes read, encoding): every byte below the break is readable by
+/// whatever instruction the guest uses, also when the operand ends exactly at the break
+const LOADS: [(u64, u64, &[u8]); 8] = [
+    (32, 2, &[0x0f, 0xb7, 0x07]),       // movzx eax, word [rdi]
+    (36, 2, &[0x48, 0x0f, 0xb7, 0x07]), // movzx rax, word [rdi]
+    (40, 1, &[0x0f, 0xb6, 0x07]),       // movzx eax, byte [rdi]
+    (44, 4, &[0x8b, 0x07]),             // mov eax, [rdi]
+    (48, 2, &[0x66, 0x8b, 0x07]),       // mov ax, [rdi]
+    (52, 4, &[0x48, 0x63, 0x07]),       // movsxd rax, dword [rdi]
+    (56, 4, &[0x03, 0x07]),             // add eax, [rdi]
+    (60, 16, &[0x0f, 0x10, 0x07]),      // movups xmm0, [rdi]
+];
+
 fn code() -> Vec<u8> {
-    let mut c = vec![0x90u8; 32];
+    let mut c = vec![0x90u8; 68];
+    for (off, _, b) in LOADS.iter() {
+        c[*off as usize..*off as usize + b.len()].copy_from_slice(b);
+    }
     c[0..2].copy_from_slice(&[0x0f, 0x05]);
     c[4..6].copy_from_slice(&[0x88, 0x07]);
     c[8..10].copy_from_slice(&[0x8a, 0x07]);
@@ -234,6 +250,25 @@ impl C13 {
                         other => {
                             let rule = if other.is_panic() { format!("panic:{}", other.panic_key()) } else { "heap-byte-not-writable".to_string() };
                             return fail(col, &rule, format!("guest store at {:#x} (base {:#x}, break {:#x}) -> {}", base + off, base, brk, other.describe()), &tail, &layout);
+                        }
+                    }
+                }
+                8 if rng.below(2) == 0 => {
+                    // another load form, mostly with its operand ending exactly at the break
+                    let (off, n, _) = LOADS[rng.below(LOADS.len() as u64) as usize];
+                    if brk - base < n {
+                        continue;
+                    }
+                    let addr = if rng.below(3) != 0 { brk - n } else { base + rng.below(brk - base - n + 1) };
+                    let r = guest(&mut ax, CODE_AT + off, 0, addr);
+                    tail.push(format!("load form @{} ({} bytes) at base+{:#x}", off, n, addr - base));
+                    col.eval(1);
+                    col.distinct_key(&format!("loadform|{}|{}", off, addr == brk - n));
+                    match r {
+                        Call::Ok(_) => {}
+                        other => {
+                            let rule = if other.is_panic() { format!("panic:{}", other.panic_key()) } else { "heap-byte-not-readable".to_string() };
+                            return fail(col, &rule, format!("guest load of {} bytes at {:#x} (base {:#x}, break {:#x}) -> {}", n, addr, base, brk, other.describe()), &tail, &layout);
                         }
                     }
                 }
